@@ -194,12 +194,12 @@ Theorem C03_source_tie_grande_normale : forall lat a e,
 Proof. exact tie_grandeNormale. Qed.
 
 Theorem C03_source_tie_toLambert : forall (pr : projection (T:=R)) e (w : wgs84 (T:=R)),
-  src_toLambert ROps (w_lon w) (w_lat w) e (p_xs pr) (p_c pr) (p_n pr) (p_lon0 pr) (p_ys pr)
+  src_toLambert ROps (p_c pr) e (p_lon0 pr) (p_n pr) (w_lat w) (w_lon w) (p_xs pr) (p_ys pr)
   = (v2x (toLambert ROps pr e w), v2y (toLambert ROps pr e w)).
 Proof. exact tie_toLambert. Qed.
 
 Theorem C03_source_tie_radii : forall lat (el : ellipsoid (T:=R)),
-  src_meridionalRadius ROps lat (el_a el) (el_e2 el) (el_e el) = meridionalRadius ROps el lat /\
+  src_meridionalRadius ROps lat (el_a el) (el_e el) (el_e2 el) = meridionalRadius ROps el lat /\
   src_transversalRadius ROps lat (el_a el) (el_e el) = transversalRadius ROps el lat.
 Proof. intros lat el. split; [apply tie_meridionalRadius|apply tie_transversalRadius]. Qed.
 Print Assumptions C03_source_tie_toLambert.
@@ -209,17 +209,17 @@ Print Assumptions C03_source_tie_toLambert.
 From Romea Require Import SrcTieLoops.
 Theorem C03_source_tie_inverse : forall fuel (pr : projection (T:=R)) e (v : vec2 (T:=R)) L,
   src_computeLatitude ROps fuel L e = computeLatitude ROps fuel L e /\
-  src_lambertToWGS84 ROps fuel (v2x v) (p_xs pr) (v2y v) (p_ys pr) (p_c pr) (p_n pr) e (p_lon0 pr)
+  src_lambertToWGS84 ROps fuel (p_c pr) e (p_lon0 pr) (p_n pr) (v2x v) (v2y v) (p_xs pr) (p_ys pr)
   = match toWGS84 ROps fuel pr e v with None => None | Some w => Some (w_lat w, w_lon w) end.
 Proof. intros fuel pr e v L. exact (conj (tie_computeLatitude fuel L e) (tie_lambertToWGS84 fuel pr e v)). Qed.
 Print Assumptions C03_source_tie_inverse.
 
 Theorem C03_source_tie_projection_parameters : forall (el : ellipsoid (T:=R)),
   (forall p : secant_params (T:=R),
-     src_secantProjection ROps (sp_lat1 p) (el_a el) (el_e el) (sp_lat2 p) (sp_lat0 p) (sp_y0 p) (sp_lon0 p) (sp_x0 p)
+     src_secantProjection ROps (el_a el) (el_e el) (sp_lat0 p) (sp_lat1 p) (sp_lat2 p) (sp_lon0 p) (sp_x0 p) (sp_y0 p)
      = (let q := secant_projection ROps p el in (p_lon0 q, p_n q, p_c q, p_xs q, p_ys q))) /\
   (forall p : tangent_params (T:=R),
-     src_tangentProjection ROps (tp_lat0 p) (el_a el) (el_e el) (tp_k0 p) (tp_y0 p) (tp_lon0 p) (tp_x0 p)
+     src_tangentProjection ROps (el_a el) (el_e el) (tp_k0 p) (tp_lat0 p) (tp_lon0 p) (tp_x0 p) (tp_y0 p)
      = (let q := tangent_projection ROps p el in (p_lon0 q, p_n q, p_c q, p_xs q, p_ys q))).
 Proof. intros el. exact (conj (fun p => tie_secantProjection p el) (fun p => tie_tangentProjection p el)). Qed.
 Print Assumptions C03_source_tie_projection_parameters.
